@@ -52,6 +52,9 @@ def run_case(case, ctx):
                     continue
                 todo.append(cls)
         ctx.label(f"to-expand:{min(len(todo), 4)}")
+        some = [c for c, r in spec.rules_dict.items() if isinstance(r, VerificationRule) and type(r.strategy).__name__ == "PackVerSome"]
+        if some and any(c in todo for c in some) and any(c not in todo for c in some):
+            ctx.label("one-strategy-type-with-and-without-pack")
         path_ends = {r.children[0] for r in spec.rules_dict.values() if isinstance(r, EquivalencePathRule)}
         in_path = any(c in path_ends for c in todo)
         if in_path:
@@ -76,10 +79,12 @@ def run_case(case, ctx):
             return
         # the expanded specification
         sub_packs = []
-        todo_strats = [s for s in pack.ver_strats if isinstance(s, (U.PackVer, U.PackVerRev))]
+        todo_strats = [s for s in pack.ver_strats if isinstance(s, (U.PackVer, U.PackVerRev, U.PackVerSome))]
         while todo_strats:
             s_ = todo_strats.pop()
-            if isinstance(s_, U.PackVerRev):
+            if isinstance(s_, U.PackVerSome):
+                sub = s_.pack(U.WC("abc", "a" * max(0, s_.minlen - 1) + s_.letters[0], []))
+            elif isinstance(s_, U.PackVerRev):
                 sub = s_.pack(U.WC("ab", s_.prefix, []))
             else:
                 sub = s_.pack(U.WC("a", "a" * s_.minlen, []))
@@ -186,6 +191,10 @@ def packver_scenario(draw, tier="quick"):
                 },
             ]
         )
+    if draw(st.integers(0, 3)) == 0:
+        # one strategy type verifying several classes, with a pack for only some of them
+        some = ["PackVerSome", {"minlen": draw(st.sampled_from([1, 1, 2])), "letters": draw(st.sampled_from(["a", "b", "b", "c", "ab"]))}]
+        vers = [some] if draw(st.booleans()) else vers + [some]
     atom = [v for v in case["pack"]["ver"] if v[0] in ("WordAtom", "AtomStrategy")][:1] or [["WordAtom", {}]]
     case["pack"]["ver"] = (vers + atom) if draw(st.integers(0, 3)) > 0 else (atom + vers)
     if draw(st.booleans()) and not case["pack"]["inferral"]:
